@@ -311,7 +311,10 @@ impl TopicCleanTracker {
         }
         #[cfg(walrus_verif)]
         crate::wal::verif::sched_point("tc_before_persist");
-        self.store.persist_updates(&updates)
+        let res = self.store.persist_updates(&updates);
+        #[cfg(walrus_verif)]
+        crate::wal::verif::sched_point("tc_after_persist");
+        res
     }
 
     #[cfg(test)]
